@@ -20,7 +20,7 @@ def run(tier):
     quick = tier == "quick"
     seed = ck.seed
     sets = optrun.option_sets(ck)
-    docs_ = optrun.documents(40 if quick else 200, seed + 6, ck, corpus_n=15 if quick else 10**6, tag="c06docs")
+    docs_ = optrun.documents(40 if quick else 80, seed + 6, ck, corpus_n=15 if quick else 10**6, tag="c06docs")
     cover = optrun.pairwise_cover(sets, seed, extra=8)
     loads = impl.loader(expand_includes=False)
     records, meta = [], {}
